@@ -421,7 +421,7 @@ func (g *dg) node(parent *DNode, depth int, inSpecial string) *DNode {
 			}
 		}
 	}
-	if len(n.Children) > 0 && g.o.Tame {
+	if len(n.Children) > 0 && g.o.Tame && n.Special != "sequence" {
 		n.Shape = ""
 		var keep [][2]string
 		for _, a := range n.Attrs {
